@@ -120,7 +120,9 @@ func (b *backendLoginSessionHandler) handleLoginPluginMessage(p *packet.LoginPlu
 		requestedForwardingVersion := velocity.DefaultForwardingVersion
 		// Check version
 		if len(p.Data) == 1 {
-			requestedForwardingVersion = int(p.Data[0])
+			// Velocity reads the requested version as a signed byte (ByteBuf.readByte),
+			// so 0x80..0xff are negative and fall back to the default version.
+			requestedForwardingVersion = int(int8(p.Data[0]))
 		}
 
 		forwardingData, err := velocity.CreateForwardingData(
